@@ -4,7 +4,7 @@ from props._hist import setup, with_recording, shrink, WORLD, HAS_CLOCK, RERECOR
 
 ID = 'C05'
 TIERS = {
-    'quick': {'runs': 12000, 'budget_s': 180, 'batch': 100},
+    'quick': {'runs': 18000, 'budget_s': 240, 'batch': 100},
     'thorough': {'runs': 500000, 'budget_s': 900, 'batch': 400},
 }
 generate = _hist.make_generate('c05', twin=True)
